@@ -435,6 +435,7 @@ class Ctx:
         self.mutations = []
         self.known = load_known_findings()
         self.assumptions = []
+        self.extra_mods = []
         self.trusted = [
             "Lean 4.33 kernel; axioms propext, Classical.choice, Quot.sound only (audited each run)",
             "Mathlib v4.33 as a library of kernel-checked theorems",
@@ -456,6 +457,7 @@ class Ctx:
         # property theorems that live in lemma modules (import order) are listed in the audit file
         af = os.path.join(LEAN, "PfVerif", "Audit", f"{prop}.lean")
         extra_mods = []
+        self.extra_mods = extra_mods
         if os.path.exists(af):
             for im in _IMPORT_RX.findall(open(af).read()):
                 if im not in targets and not im.startswith("PfVerif.Audit"):
@@ -486,7 +488,7 @@ class Ctx:
             if not set(ax) <= STD_AXIOMS:
                 self.ties_broken.append({"kind": "lean-axioms", "detail": f"{name}: {ax}"})
         if self.tier == "thorough" and os.environ.get("VERIF_NO_LEANCHECKER") != "1":
-            rc, out, err = run(["lake", "env", "leanchecker", f"PfVerif.Props.{prop}"], cwd=LEAN,
+            rc, out, err = run(["lake", "env", "leanchecker", f"PfVerif.Props.{prop}"] + extra_mods, cwd=LEAN,
                                timeout=3600)
             self.extra["leanchecker_rc"] = rc
             if rc != 0:
@@ -579,11 +581,12 @@ class Ctx:
                                       "explanation": "a proof obligation or the model/implementation correspondence no longer checks; the property-directed search on the real code found no failing input"})
             out_lines.append(f"VIOLATION property={self.prop} replay={path} no-failing-input-found")
         disc = sum(1 for _, ax in self.thms if set(ax) <= STD_AXIOMS)
+        mods = " ".join([f"PfVerif.Props.{self.prop}"] + list(getattr(self, "extra_mods", [])))
         cov = {
             "obligations": len(self.thms),
             "discharged": disc,
-            "checker_cmd": f"cd lean && lake build PfVerif.Props.{self.prop} && lake env lean PfVerif/Audit/{self.prop}.lean"
-                           + (" && lake env leanchecker PfVerif.Props." + self.prop if self.tier == "thorough" else ""),
+            "checker_cmd": f"cd lean && lake build {mods} && lake env lean PfVerif/Audit/{self.prop}.lean"
+                           + (f" && lake env leanchecker {mods}" if self.tier == "thorough" else ""),
             "trusted_base": self.trusted,
             "theorems": [n for n, _ in self.thms],
             "evaluations": self.evaluations,
